@@ -138,6 +138,11 @@ func c17Gen(c *core.Ctx) {
 		{"a c", map[string]string{"a": "b c ", "b": "echo ", "c": "X"}, "echo X X"},
 		{"a c", map[string]string{"a": "b ", "b": "echo", "c": "X"}, "echo X"},
 		{"a c d", map[string]string{"a": "b ", "b": "e ", "e": "echo", "c": "X ", "d": "Y"}, "echo X Y"},
+		// an outer alias that is exhausted while the inner value is read: only the word after the whole chain is examined
+		{"outer", map[string]string{"outer": "inner ", "inner": "echo hi there", "hi": "NO"}, "echo hi there"},
+		{"outer x hi", map[string]string{"outer": "inner ", "inner": "echo hi", "x": "X", "hi": "NO"}, "echo hi X hi"},
+		{"outer", map[string]string{"outer": "inner ", "inner": "if x; then y hi; fi >hi", "hi": "NO"}, "if x; then y hi; fi >hi"},
+		{"o x", map[string]string{"o": "m ", "m": "i ", "i": "echo a b", "a": "NO", "b": "NO", "x": "X "}, "echo a b X"},
 		// witnesses of open known findings (and their repaired neighbours)
 		{"a x) :;; esac", map[string]string{"a": "case x in ", "x": "y"}, "case x in y) :;; esac"},
 		{"a x) :;; esac", map[string]string{"a": "case x in ( ", "x": "y"}, "case x in ( y) :;; esac"},
@@ -309,7 +314,33 @@ func c17Build(p *c17Prog, r *rand.Rand, variant int) (c17Case, bool) {
 				kind = "fold-chain"
 			}
 		}
-		if r.IntN(3) == 0 {
+		if variant == 1 && kind == "fold" && r.IntN(2) == 0 {
+			// the outer value is nothing but another alias and a blank: the outer alias is
+			// exhausted (and still remembered) while the inner value is being read
+			al["ALIAS_2"] = run
+			al["ALIAS_1"] = "ALIAS_2" + pick(r, []string{" ", "\t", "  "})
+			kind = "fold-wrap"
+			if j+1 < len(t) && t[j+1].Kind == gen.TWord && (al[t[j+1].Text] != "" || !plainWord(t[j+1].Text)) {
+				return c17Case{}, false
+			}
+		}
+		// decoys: words of the run that are not in command position name aliases too; they stay as they are
+		for k, nd := i+1, 0; k <= j && nd < 2; k++ {
+			w := t[k].Text
+			if t[k].Kind != gen.TWord || t[k].CmdPos || !plainWord(w) || isReservedWord(w) || al[w] != "" || r.IntN(2) == 0 {
+				continue
+			}
+			if cmd, _ := count(w); cmd != 0 {
+				continue
+			}
+			if strings.Contains(run[:t[k].Off-t[i].Off], "<<") {
+				break // (a here-document body inside the value: its words are no tokens)
+			}
+			al[w] = pick(r, []string{"DECOY", "DECOY x ", "{", "! y"})
+			nd++
+			kind += "+decoy"
+		}
+		if r.IntN(3) == 0 && !strings.HasPrefix(kind, "fold-wrap") {
 			al["ALIAS_1"] += pick(r, []string{" ", "\t", "  "}) // a trailing blank must not matter when an operator / nothing alias-like follows
 			if j+1 < len(t) && t[j+1].Kind == gen.TWord && al[t[j+1].Text] != "" {
 				return c17Case{}, false
